@@ -13,6 +13,7 @@ pub proof fn lemma_eg_decrypt(b: int, x: int, m: int, g: int)
     assert(fmul(b, x) == t);
     // (t + gm) + (-t) == gm
     assert(fadd(fadd(t, fmul(g, m)), fneg(t)) == fadd(fadd(fmul(g, m), t), fneg(t)));
+    lemma_add_assoc(fmul(g, m), t, fneg(t));
     assert(fadd(fadd(fmul(g, m), t), fneg(t)) == fadd(fmul(g, m), fadd(t, fneg(t))));
 }
 
